@@ -102,6 +102,7 @@ func loadPrelude() string {
 	}
 	parseSpecSigs(b.String())
 	parsePreludeForms(b.String())
+	parseSpecDefs(b.String())
 	return b.String()
 }
 
